@@ -69,12 +69,27 @@ inductive Dispatch where
   | handler (id : Nat) | notFound | methodNotAllowed
 deriving DecidableEq, Repr
 
-/-- ServeMux restricted to literal "METHOD /path" patterns: exact (method, path) match; a path that
-    is registered for other methods only answers 405; anything else 404. -/
+/-- a pattern path that ends in "/" is a *subtree* pattern: it matches every path below it. -/
+def patMatches (pat path : String) : Bool := pat == path || (pat.endsWith "/" && path.startsWith pat)
+
+/-- the more specific (longer) of two subtree patterns wins. -/
+def longest : List Route → Option Route
+  | [] => none
+  | r :: rest => match longest rest with
+    | some q => if r.path.length < q.path.length then some q else some r
+    | none => some r
+
+/-- ServeMux restricted to literal "METHOD /path" and "METHOD /subtree/" patterns: an exact (method, path) match wins;
+    otherwise the longest subtree pattern of that method that contains the path; a path that only patterns of other
+    methods match answers 405; anything else 404.  (Not modelled: the 301 redirect from "/p" to a registered "/p/", path
+    cleaning, wildcards, host patterns — the harness does not request such paths.) -/
 def dispatch (routes : List Route) (method path : String) : Dispatch :=
   match routes.find? (fun r => r.method == method && r.path == path) with
   | some r => .handler r.handler
-  | none => if routes.any (fun r => r.path == path) then .methodNotAllowed else .notFound
+  | none =>
+    match longest (routes.filter (fun r => r.method == method && r.path.endsWith "/" && path.startsWith r.path)) with
+    | some r => .handler r.handler
+    | none => if routes.any (fun r => patMatches r.path path) then .methodNotAllowed else .notFound
 
 inductive Listener where | http | https
 deriving DecidableEq, Repr
